@@ -27,6 +27,11 @@
 (*   "extract_no_var"      the extractor forgets the var= reference        *)
 (*   "same_by_flat_text"   print placeholders are identified by their      *)
 (*                         printed text without grouping                   *)
+(*   "same_ignores_directives"  ... by their expression, whatever the      *)
+(*                         print directives                                *)
+(*   "builtin_rule_wins"   the plural form is selected by the built-in     *)
+(*                         rule of the catalogue's locale instead of the   *)
+(*                         rule its Plural-Forms header declares           *)
 (***************************************************************************)
 EXTENDS SoyMsg, SoyExpr
 
@@ -45,17 +50,21 @@ POValidate(body) ==
 PONodes(body) == MsgNodes(body)
 
 POSameFlat(p, q) ==
-  IF p.k = "print" /\ q.k = "print" THEN MsgFlatExpr(p.e) = MsgFlatExpr(q.e) ELSE p = q
+  IF p.k = "print" /\ q.k = "print"
+  THEN (IF "same_ignores_directives" \in PODev THEN p.e = q.e ELSE MsgFlatExpr(p.e) = MsgFlatExpr(q.e))
+  ELSE p = q
+
+POSameDev == "same_by_flat_text" \in PODev \/ "same_ignores_directives" \in PODev
 
 \* (deviation) representative of p: the first node that is "the same"
 POCanon(nodes, p) ==
-  IF "same_by_flat_text" \in PODev
+  IF POSameDev
   THEN nodes[CHOOSE i \in 1..Len(nodes) : POSameFlat(nodes[i].p, p) /\ \A j \in 1..(i - 1) : ~POSameFlat(nodes[j].p, p)].p
   ELSE p
 
 PONames(body) ==
   LET ns == PONodes(body) IN
-  IF "same_by_flat_text" \in PODev
+  IF POSameDev
   THEN LET cn == [i \in 1..Len(ns) |-> [p |-> POCanon(ns, ns[i].p), b |-> ns[i].b]]
            nm == MsgNamesOf(cn) IN nm
   ELSE MsgNamesOf(ns)
@@ -84,11 +93,13 @@ PODomain(body) ==
 (***************************************************************************)
 POLocales == <<"ja", "en", "ru">>
 
-PONPlurals(loc) == CASE loc = "ja" -> 1 [] loc = "en" -> 2 [] loc = "ru" -> 3 [] loc = "cs" -> 3
+\* A rule is named after the locale whose standard gettext rule it is.
+PONPlurals(loc) == CASE loc = "ja" -> 1 [] loc = "en" -> 2 [] loc = "fr" -> 2 [] loc = "ru" -> 3 [] loc = "cs" -> 3
 
 POPluralForms(loc) ==
   CASE loc = "ja" -> "nplurals=1; plural=0;"
     [] loc = "en" -> "nplurals=2; plural=(n != 1);"
+    [] loc = "fr" -> "nplurals=2; plural=(n > 1);"
     [] loc = "ru" -> "nplurals=3; plural=(n%10==1 && n%100!=11 ? 0 : n%10>=2 && n%10<=4 && (n%100<10 || n%100>=20) ? 1 : 2);"
     [] loc = "cs" -> "nplurals=3; plural=(n==1) ? 0 : (n>=2 && n<=4) ? 1 : 2;"
 
@@ -96,10 +107,27 @@ POPluralForms(loc) ==
 POPluralIndex(loc, n) ==
   CASE loc = "ja" -> 0
     [] loc = "en" -> IF n # 1 THEN 1 ELSE 0
+    [] loc = "fr" -> IF n > 1 THEN 1 ELSE 0
     [] loc = "ru" -> IF n % 10 = 1 /\ n % 100 # 11 THEN 0
                      ELSE IF n % 10 >= 2 /\ n % 10 <= 4 /\ (n % 100 < 10 \/ n % 100 >= 20) THEN 1
                      ELSE 2
     [] loc = "cs" -> IF n = 1 THEN 0 ELSE IF n >= 2 /\ n <= 4 THEN 1 ELSE 2
+
+\* A catalogue is a file for a LOCALE whose header declares a RULE; the two
+\* need not agree (the project's own testdata/en.po declares a three-form
+\* rule).  The declared rule selects the form.  POCatalogueLocales(rule):
+\* the locales for which a catalogue with that header is loaded in the
+\* binding; POBuiltinRule(l): the rule the gettext library knows for l.
+POCatalogueLocales(rule) ==
+  CASE rule = "ja" -> <<"ja">>
+    [] rule = "en" -> <<"en", "fr">>
+    [] rule = "ru" -> <<"ru", "ja">>
+    [] rule = "cs" -> <<"cs", "en">>
+    [] OTHER -> <<rule>>
+POBuiltinRule(l) == l
+
+POEffectiveRule(rule, locale) ==
+  IF "builtin_rule_wins" \in PODev THEN POBuiltinRule(locale) ELSE rule
 
 (***************************************************************************)
 (* Strings <-> parts.  A catalogue string is text with {NAME} where NAME   *)
@@ -172,8 +200,22 @@ POLoad(e, strs) ==
 POOut(s) == [t |-> "out", s |-> s]
 
 \* one placeholder node: its live value / the tag text
+\* print directives on plain text (no HTML-special characters): truncate:N,false
+\* keeps the first N characters; noAutoescape / id change nothing; anything
+\* else is outside the model
+RECURSIVE POApplyDirs(_, _)
+POApplyDirs(x, dirs) ==
+  IF dirs = <<>> \/ x.t # "out" THEN x
+  ELSE LET d == Head(dirs) IN
+       IF d.name \in {"noAutoescape", "id"} THEN POApplyDirs(x, Tail(dirs))
+       ELSE IF d.name = "truncate" /\ Len(d.args) = 2 /\ d.args[1].k = "int" /\ d.args[2] = MsgBool(FALSE)
+            THEN POApplyDirs(POOut(IF Len(x.s) > d.args[1].v THEN SubSeq(x.s, 1, d.args[1].v) ELSE x.s), Tail(dirs))
+       ELSE Unspec
+
 PONodeOut(p, env) ==
-  IF p.k = "tag" THEN POOut(p.s) ELSE PrintOutcome(p.e, env)
+  IF p.k = "tag" THEN POOut(p.s)
+  ELSE IF "dirs" \in DOMAIN p THEN POApplyDirs(PrintOutcome(p.e, env), p.dirs)
+  ELSE PrintOutcome(p.e, env)
 
 POCat(a, b) == IF a.t # "out" THEN a ELSE IF b.t # "out" THEN b ELSE POOut(a.s \o b.s)
 
@@ -228,6 +270,11 @@ PORender(body, cm, loc, env) ==
 \* the whole pipeline for one message
 PORoundTrip(m, strategy, loc, env) ==
   LET e == POExtract(m) IN PORender(m.body, POLoad(e, POTranslate(strategy, e, loc)), loc, env)
+
+\* ... with the catalogue loaded for a locale other than the rule's own
+PORoundTripIn(m, strategy, rule, locale, env) ==
+  LET e == POExtract(m) IN
+  PORender(m.body, POLoad(e, POTranslate(strategy, e, rule)), POEffectiveRule(rule, locale), env)
 
 (***************************************************************************)
 (* What the round trip must give, stated without the pipeline.             *)
@@ -286,9 +333,10 @@ PoolC11 == <<
   MTag("</a>"),                                                       \* 10
   MTag("<br/>"),                                                      \* 11
   MText("t"),                                                         \* 12
-  MText(" u ") >>                                   \* 13  (spaces are part of the text)
+  MText(" u "),                                     \* 13  (spaces are part of the text)
+  MPrintD(MsgVar("y"), <<MDir("truncate", <<MsgInt(1), MsgBool(FALSE)>>)>>) >>   \* 14  {$y|truncate:1,false}  Y
 
-POInnerPool == << MPrint(POVarN), MPrint(MsgVar("y")), PoolC11[1], MPrint(PON1), MText("t"), MTag("<a>") >>
+POInnerPool == << MPrint(POVarN), MPrint(MsgVar("y")), PoolC11[1], MPrint(PON1), MText("t"), MTag("<a>"), PoolC11[14] >>
 POSubjects  == << POVarN, PON1 >>
 POCaseSets  == << <<1>>, <<0, 1>>, <<2>>, <<>> >>      \* only the first is PO-representable
 
